@@ -60,6 +60,16 @@ Proof. vm_compute. split; [reflexivity|repeat constructor]. Qed.
 Print Assumptions C16_every_exit_path_of_Close_releases_the_lock.
 
 (* Non-vacuity: two directories, a rejected second Open, a failed Open, reopen after Close. *)
+(* Close takes the engine lock before it releases the directory: it can do so only if no call leaves the engine lock
+   behind.  Every branch-free path of every exported call, extracted from the current source by translator T2b
+   (gen/GenLockPaths.v), releases every lock it takes and ends holding nothing (the discipline of C09: a path that
+   returns with the engine lock held is rejected). *)
+From KV Require LockOrder GenLockPaths.
+Theorem C16_no_call_returns_with_the_engine_lock_held :
+  forallb (LockOrder.ordered_b []) GenLockPaths.api_paths = true /\ Nat.leb 30 (length GenLockPaths.api_paths) = true.
+Proof. vm_compute. split; reflexivity. Qed.
+Print Assumptions C16_no_call_returns_with_the_engine_lock_held.
+
 Example c16_run :
   snd (lrun [] [LOpen 1 0 false; LOpen 2 0 false; LOpen 3 1 true; LOpen 4 1 false; LClose 1; LOpen 5 0 false; LClose 9])
   = [LOk; LInUse; LFailed; LOk; LOk; LOk; LNotOpen].
